@@ -384,7 +384,25 @@ def instance_state_writes(cls):
     """writes of a class's methods (other than __init__) to the state of `self` that are neither undone on every exit nor a reset at the top of the method:
     [(method, node, attribute, why)].  A push is balanced when it stands directly before / inside a `try` whose `finally` undoes it on the same attribute."""
     out = []
-    for m in [x for x in cls.body if isinstance(x, ast.FunctionDef) and x.name != '__init__']:
+    # constructor code: __init__ and the methods that are called from constructor code only (an extracted part of __init__)
+    meths = {x.name: x for x in cls.body if isinstance(x, ast.FunctionDef)}
+    callers = {}
+    for mm in meths.values():
+        for c in ast.walk(mm):
+            if isinstance(c, ast.Call) and isinstance(c.func, ast.Attribute) and isinstance(c.func.value, ast.Name) and c.func.value.id == 'self' and c.func.attr in meths:
+                callers.setdefault(c.func.attr, set()).add(mm.name)
+            elif isinstance(c, ast.Attribute) and isinstance(c.value, ast.Name) and c.value.id == 'self' and c.attr in meths and not (
+                    isinstance(getattr(c, '_parent', None), ast.Call) and c._parent.func is c):
+                callers.setdefault(c.attr, set()).add('<value>')         # the method is taken as a value: callable from anywhere
+    ctor_code = {'__init__'}
+    changed = True
+    while changed:
+        changed = False
+        for nm in meths:
+            if nm not in ctor_code and callers.get(nm) and callers[nm] <= ctor_code and not nm.startswith('__'):
+                ctor_code.add(nm)
+                changed = True
+    for m in [x for x in cls.body if isinstance(x, ast.FunctionDef) and x.name not in ctor_code]:
         if not m.args.args or m.args.args[0].arg != 'self' or any(norm(d) in ('staticmethod', 'classmethod') for d in m.decorator_list):
             continue
 
